@@ -420,12 +420,14 @@ def levels_case(rep):
                 return vals[:NL]
 
             nn = val(shape[0], nodes)
+            ntypes = val(shape[1], ['EQUID', 'LEGENDRE', 'CHEBY-2', 'CHEBY-4'])
+            qtypes = val(shape[2], ['RADAU-RIGHT', 'LOBATTO', 'RADAU-RIGHT', 'LOBATTO'])
             dts = val(shape[1], [0.1, 0.1, 0.1, 0.1])
             restol = val(shape[2], [1e-8, 1e-7, 1e-6, 1e-5])
             lam = [np.array([-1.0]), np.array([-2.0]), np.array([-3.0]), np.array([-4.0])][:NL] if NL > 1 else np.array([-1.0])
             d = dict(problem_class=testequation0d, problem_params={'lambdas': lam, 'u0': 1.0}, sweeper_class=generic_implicit,
-                     sweeper_params={'num_nodes': nn, 'quad_type': 'RADAU-RIGHT'}, level_params={'dt': dts, 'restol': restol}, step_params={'maxiter': 3})
-            lens = [len(v) for v in (nn, dts, restol, lam) if isinstance(v, list)]
+                     sweeper_params={'num_nodes': nn, 'quad_type': qtypes, 'node_type': ntypes}, level_params={'dt': dts, 'restol': restol}, step_params={'maxiter': 3})
+            lens = [len(v) for v in (nn, dts, restol, lam, ntypes, qtypes) if isinstance(v, list)]
             expect_levels = max([1] + lens)
             if expect_levels > 1:
                 d['space_transfer_class'] = mesh_to_mesh
@@ -436,6 +438,10 @@ def levels_case(rep):
             for i, L in enumerate(Ls):
                 ok = ok and L.sweep.coll.num_nodes == pick(nn, i) and L.params.dt == pick(dts, i) and L.params.restol == pick(restol, i)
                 ok = ok and np.all(L.prob.lambdas == pick(lam, i)) and L.level_index == i
+                from pySDC.core.collocation import CollBase
+
+                refc = CollBase(pick(nn, i), 0, 1, node_type=pick(ntypes, i), quad_type=pick(qtypes, i))
+                ok = ok and L.sweep.coll.node_type == pick(ntypes, i) and L.sweep.coll.quad_type == pick(qtypes, i) and np.array_equal(L.sweep.coll.nodes, refc.nodes) and np.array_equal(L.sweep.coll.Qmat, refc.Qmat)
             rep.side(f'levels/NL{NL}/{"-".join(shape)}', ok, {'levels': len(Ls), 'expected': expect_levels})
 
 
